@@ -170,10 +170,10 @@ fn run_case(c: &SpawnCase, root: &std::path::Path, rep: &mut CaseReport) -> Resu
     if c.stdio[0] == 3 || c.stdio[0] == 2 {
         flags.push('i');
     }
-    if c.stdio[1] == 3 {
+    if c.stdio[1] == 3 || c.stdio[1] == 2 {
         flags.push('o');
     }
-    if c.stdio[2] == 3 {
+    if c.stdio[2] == 3 || c.stdio[2] == 2 {
         flags.push('e');
     }
     let mut argv_model: Vec<Vec<u8>> = vec![bin_bytes.clone(), dump_path.as_os_str().as_bytes().to_vec(), c.exit_code.to_string().into_bytes(), flags.clone().into_bytes()];
@@ -446,6 +446,16 @@ fn run_case(c: &SpawnCase, root: &std::path::Path, rep: &mut CaseReport) -> Resu
                 ensure!(d["uid"].as_u64() == Some(u64::from(uid)) && d["gid"].as_u64() == Some(u64::from(gid)), "spawn|ids differ", "uid/gid {:?}/{:?}", d["uid"], d["gid"]);
                 if c.stdio[0] == 3 {
                     ensure!(unhex(d["stdin"].as_str().unwrap()) == b"IN", "spawn|stdin pipe not connected to the child", "child read {:?} from stdin, parent wrote \"IN\"", d["stdin"]);
+                }
+                // the configured streams are usable in their direction (Null: reads give EOF, writes succeed)
+                for (i, key, what) in [(0usize, "in_res", "reading stdin"), (1, "out_res", "writing to stdout"), (2, "err_res", "writing to stderr")] {
+                    if c.stdio[i] == 2 || c.stdio[i] == 3 {
+                        let r = d[key].as_i64().unwrap_or(-1);
+                        ensure!(r == 0, "spawn|configured stream unusable in the child", "{what} in the child failed with errno {r} (stream {i} mode {})", c.stdio[i]);
+                    }
+                }
+                if c.stdio[0] == 2 {
+                    ensure!(unhex(d["stdin"].as_str().unwrap()).is_empty(), "spawn|Null stdin delivered data", "child read {:?} from a Null stdin", d["stdin"]);
                 }
                 // descriptors in the child: exactly 0,1,2 (+ what the helper opened itself)
                 let fds = d["fds"].as_array().unwrap();
